@@ -17,9 +17,7 @@ PRE = [
     (r'\btarget\.', 'target->'),
     (r'\(void\)\s*(item|target);', ';'),
 ]
-# the one assertion the ABA finding is about is checked and then assumed, so that the rest of the function is verified
-# under it (one failing obligation per unit instead of a cascade); every other UNIFEX_ASSERT is a plain obligation
-POST = [(r'VF_ASSERT\(pred_val == AIL_to_value\(&self->sentinel_\)\)', 'VF_ASSERT_THEN_ASSUME(pred_val == AIL_to_value(&self->sentinel_))')]
+POST = []
 
 ctx = dict(
     cls='AIL',
@@ -117,6 +115,9 @@ SPEC = dict(
         'an access outside it is a failed obligation',
         'link invariant (established by the constructor, re-checked at every unlock, assumed at every lock acquisition): an unlocked link of a list '
         'points to a node whose self pointer is the address of that link, and no other node\'s self designates it',
+        'try_lock_checking is represented by its honest contract (true: the lock bit of the link is held and *head_val is the unlocked value the CAS saw; '
+        'false: nothing written) -- it does NOT promise that the monitored pointer still equals `expected` (ABA on the link value, finding C15-atomic-list-aba, '
+        'fixed: the callers re-check pred_val); assumed: the link it locks is not the null link of an off-list node (needs the same ABA twice)',
         'a node is pushed by its owner only while it is in no list (self == nullptr: the code asserts it) and is not concurrently pushed twice; '
         'the target of drain_into / latch_and_drain is private to the caller (empty, unshared) until the call publishes it',
         'the sequential functional contracts (specs/atomic_list/ail_contract.h) are checked on lists of <= 4 nodes (bounded); that every concurrent '
